@@ -178,7 +178,9 @@ def refStep (P : Prim) (cfg : RefCfg) (self : Env → Expr → Except Err PVal) 
       | some r => pure r
       | none =>
         if cfg.compiled then
-          (match obj with | .recv _ _ => pure .missing | _ => .error .attrErr)
+          -- `net` is the real package object in the compiled namespace: what it exposes beyond the whitelisted
+          -- constructor paths is not modelled
+          (match obj with | .recv _ _ => pure .missing | .ftype _ => .error .unmodelled | _ => .error .attrErr)
         else .error .undefined
   | .boolop op vs => rBool P self env (op == "Or") vs .none
   | .binop op l r => do
